@@ -8,14 +8,26 @@ def S(name, nq, nt, **kw):
 VDB_RULE = ("vdb stream: one evaluation = one operation (commit on frontier / on a stale parent, pop, open view at a current, "
             "abandoned, unknown, wrong-height or zero id, get, has, ordered prefix scan, put, delete, snapshot, subset, changes, "
             "apply) executed on a real NewLevelDBManager / NewMemDB and replayed through the Lean model; keys share prefixes, "
-            "values include empty and [0]; every open view is re-validated in full against a shadow map after later "
+            "values include empty and [0]; key alphabets by coordinates: in root coordinates the EMPTY key, single bytes incl. "
+            "the internal prefix bytes of the leveldb layout and their neighbours (0x54..0x56, 0x66, 0x77) and 0xff, 0xff runs, "
+            "else (3|4)·{00,01,03,04,ff}*; inside Subset windows (also through snapshots of them) the empty relative key (= the "
+            "record stored under the bare prefix), 00 / ff runs, single bytes 0..2, tails that are prefixes of one another; scan "
+            "and Subset prefixes include the empty prefix, a prefix equal to a generated key and proper prefixes of keys (the "
+            "scan of everything in root coordinates is compared without the store's bookkeeping entries: vdb-scanu); every open view is re-validated in full against a shadow map after later "
             "commits/pops; scans are taken as the store's iterator delivers them (nothing filtered by the harness) and every "
             "scan of every view (frontier, historical, snapshot, subset) is checked model-free against Get/Has of the same "
             "view on every key the sequence ever generated — no present key missing, no absent key listed, ascending order — "
             "and against the shadow; every 40th sequence a directed scenario delivers the inputs of the two repaired scan "
             "defects (key holding the empty value at X scanned from below the frontier, 734ff49; keys created after X / rolled "
             "back scanned at X and at the frontier, 522bff7) with random keys, through views, snapshots with own writes and "
-            "subsets; distinct = distinct (op,result) lines")
+            "subsets; every 10th sequence a directed prefix-family scenario: for a prefix p (empty / one byte / internal prefix "
+            "byte / 0xff / random) the keys p, p·00, p·00·00, p·ff, p·ff·ff, p·01 and the neighbours of p on both sides present or "
+            "absent at X, then overwritten / deleted / created / re-created at X+1 (and X+2) and again through the upper layer of "
+            "every layered view — the view at X below the frontier, the frontier, Subset(p), Subset(p).Snapshot() and a snapshot "
+            "of that with the empty key overwritten / deleted / deleted-and-re-created / given the empty value / left alone, "
+            "Snapshot() with p written the same way and Subset(p) of it, the same after popping back to X and under a new "
+            "frontier — each read on every candidate key and scanned under the empty prefix, under p (prefix == key), the members "
+            "of the family and, inside the windows, under '', 00, 00·00, ff, ff·ff, 01; distinct = distinct (op,result) lines")
 VDB_MEM_RULE = ("; vdb-mem stream: the in-memory manager db.NewMemDBManager (the per-account store of the unconfirmed pool) over an "
                 "empty root or a root database that already holds 1-3 versions, driven through the same operations (commit on "
                 "the frontier - one time in four re-committing an identifier that was popped before -, pop, views at current / "
@@ -387,13 +399,26 @@ PROPS = {
                 "one evaluation = one value pushed through the real ComputeHash / Serialize / Deserialize / JSON / RLP code "
                 "and the same operation replayed by the Lean model; distinct = distinct (op,result) lines. calldata stream: "
                 "every ValidateSendBlock of the embedded contracts on canonical and re-arranged ABI call data (trailing bytes, "
-                "dirty padding, relocated tails); evaluated on the real code only (no Lean replay). variants stream (monitors "
+                "dirty padding, relocated tails); evaluated on the real code only (no Lean replay); END TO END (N/150 histories "
+                "on a producing node and two followers, every third under the accelerator / htlc sporks): for random methods with "
+                "arguments a call the node accepts is generated, then its non-canonical encodings that the method lets through and "
+                "re-encodes (every narrow static word dirtied by one bit / ff padding / the byte next to the value, bool words, "
+                "trailing bytes and words, dirty tail padding, one / all dynamic tails relocated with gaps, the hostile mutations of "
+                "the abi stream that still decode) are put into the complete send block, hashed and signed by the owner over "
+                "exactly those bytes, and delivered by gossip (ChainBridge.AddAccountBlocks), by publishing on the producer "
+                "(Supervisor.ApplyBlock + AddAccountBlockTransaction) and inside the producer's next momentum re-made by its pillar "
+                "key to list the block (ChainBridge.InsertChain on a fresh follower): refused, or what the node then holds for that "
+                "account height (pool or ledger) has call data that is a fixed point of unpack->pack and a hash that is the hash of "
+                "the stored content; at the end of a history the same for every send block to an embedded contract in the three "
+                "ledgers. variants stream (monitors "
                 "only, three real nodes): the fields of AccountBlock / Momentum the hash does not cover are found by experiment "
                 "on ComputeHash (perturb one field of a copy: ChangesHash, BasePlasma, TotalPlasma, PublicKey, Signature; "
                 "PublicKey, Signature for momentums) and every alteration of their type is applied to blocks the producer just "
                 "accepted - byte strings extended by 0x00 / 0xff / 1-80 random bytes, doubled, zero-padded to 33/65/96/128, cut "
                 "by one / to half / to 32 / to nothing / at the front, prefixed, rotated, bit-flipped, zeroed, signed by another "
-                "key; integers +1/+k/0/max; hashes random/zero/bit-flipped - re-encoded through the wire form and delivered to a "
+                "key; integers honest+1 / honest-1 / +k / -k / half / 0 / 1 / max / the honest value of the same field in another "
+                "block of the history (plus named lowered-base / lowered-total / both-lowered plasma variants; plasma lies on "
+                "contract receives and descendants drawn from 0/1/7/9/21000/max); hashes random/zero/bit-flipped - re-encoded through the wire form and delivered to a "
                 "follower BEFORE the honest data: user blocks as gossip (ChainBridge.AddAccountBlocks) and inside a lying peer's "
                 "momentum, momentums and contract receives / descendants through InsertChain; whatever the follower accepts must "
                 "be stored with the bytes of the original (account block and momentum), the follower must then accept the "
@@ -423,10 +448,21 @@ PROPS = {
                 "its own password and refused for 4 near misses (the trimmed form, a white-space-extended form, case / "
                 "normalisation / cleaned-up / truncated forms); operation sequences on ONE KeyFile object and on one "
                 "wallet.Manager (Decrypt with right / wrong passwords repeatedly, Unlock-Lock-Unlock, GetKeyFileAndDecrypt, Write "
-                "+ ReadKeyFile, the caller wiping a key store it was handed; three directed sequences + random ones of 4-8 "
-                "operations): after every operation the object's fields and serialised form are unchanged, the file it writes is "
+                "+ ReadKeyFile, the caller wiping a key store it was handed; directed sequences + random ones of 4-8 "
+                "operations; on every run the MANAGER STATE MATRIX: on one Manager every password-taking entry point "
+                "(Manager.GetKeyFileAndDecrypt, KeyFile.Decrypt on the manager's object, Manager.Unlock) with a wrong, the empty and "
+                "the right password — refusals first — in every state: never unlocked, unlocked, unlocked then locked, locked / "
+                "unlocked after a wrong Unlock, after a wrong GetKeyFileAndDecrypt, unlocked twice, unlocked with the handed-out key "
+                "store wiped by the caller, locked and unlocked again, manager restarted (locked / while unlocked): right password => "
+                "the entropy, any other => error, whatever the state; seq-state:* counters in the evidence): after every operation the object's fields and serialised form are unchanged, the file it writes is "
                 "the file first written and holds no plaintext, its password still yields the entropy - replayed through the Lean "
-                "sequence model kfStep; one evaluation = one call of the real wallet code replayed through the Lean model with "
+                "sequence model kfStep; persisted round trips over a path ALREADY in use: for every allowed entropy size the key "
+                "file is written (KeyFile.Write) over a key file of every allowed size (shorter, longer, same size = password "
+                "change), over an empty file, a few random bytes, 4 kB of random bytes, a 3 kB JSON document of another shape, a key "
+                "file with trailing text, and as a chain of writes of all sizes to one path — then ReadKeyFile reads the fields that "
+                "were written, the recorded address is the index-0 address, Decrypt(password) gives the entropy, the former "
+                "password is refused, a Manager started on the directory lists the file and unlocks it to the entropy (overwrite:* "
+                "counters); one evaluation = one call of the real wallet code replayed through the Lean model with "
                 "the primitives supplied as oracle values; distinct = distinct (op,result) lines",
         "partial": "'fails with any other password / after any change to ciphertext, nonce or salt' is AES-GCM authenticity "
                    "and Argon2id behaviour: an assumption, exercised by the stream (wrong passwords, bit flips), not a theorem; "
@@ -603,7 +639,15 @@ PROPS = {
                 "(amount / Amount / totalSupply / znn / qsr / maxSupply in rotation), one with an amount written as null (fusion, "
                 "pillar, TotalSupply, MaxSupply, user balance, contract balance, swap amount in rotation) and one of the repaired gaps "
                 "— the result must be (nil, error): never a genesis, never (nil, nil), never a panic; every 3rd config a LevelDB "
-                "created with A is restarted with B and with permuted A; 20 header lists per config through the real "
+                "created with A is restarted with B and with permuted A; every 3rd config the start-on-a-foreign-database scenario "
+                "over every single FIELD of the configuration: database created under A, chain.Init on the same directory under A "
+                "with ONE field edited — on every run the fields that never reach the genesis state (ExtraData changed / emptied, "
+                "GenesisTimestampSec +1 / -1 / far, both), the node configuration (SporkAddress), order-only changes of all lists, "
+                "SporkConfig nil<->empty, and in rotation 6 of 48 state edits (ChainIdentifier, every field of a pillar / delegation / "
+                "legacy entry / token / fusion / swap entry / spork, entries added and dropped, a balance +-1, one unit moved between "
+                "two users, a block address, an empty block added, a block dropped) — then A again: refused iff the genesis momentum "
+                "NewGenesis(B) builds differs from the stored one, the restart with A works (model-free monitor + gen-startup lines "
+                "for the model; startup-field:* counters); 20 header lists per config through the real "
                 "NewMomentumContent; distinct = distinct (op,result) lines; directed:* / readfile-* counters in the evidence show "
                 "that every kind ran",
         "partial": "invariance of the full genesis momentum (hash, patch of all embedded storage) under list permutation and across "
